@@ -1,6 +1,6 @@
 (* RoundTripCheck.v — an executable checker for wf and its soundness (used for the non-vacuity examples). *)
 From FDO Require Import Cbor.Typed Cbor.DecFacts.
-From WIP Require Import RoundTripMono RoundTripHead RoundTripWf.
+From FDO Require Import Cbor.RoundTripMono Cbor.RoundTripHead Cbor.RoundTripWf.
 Local Open Scope nat_scope.
 
 (* ---- val_eqb is sound ---- *)
